@@ -18,6 +18,29 @@ CHECKS = {
         ref="DESIGN.md §4 C03"),
 }
 
+def _gen(pid):
+    from importlib import import_module
+    return None
+
+
+for _pid, _txt, _note in [
+    ("C01", "Parse -> print -> parse on symbolic texts: fully symbolic short descriptor / mixture texts, distribution texts with numeral parameters, and templates of every skeleton / test string whose numbers are numeral atoms with symbolic values, with one whitespace or number-format variant at a time; per path z3 proves acceptance of the print, fixed point, equal attribute trees and exact erasure of |...| segments.",
+     "Bounds: descriptor text <= 6 (8) symbolic characters, mixture body <= 4 (5), one variant at a time, token chemistry concrete. Trusted: CPython's number printing contract (float(repr(x)) == x; printed numbers contain no scanner characters), RDKit for atoms."),
+    ("C02", "SmilesToken on symbolic slot sequences (K <= 7 quick / 9 thorough; 1-3 descriptors at fixed positions, all other slots symbolic over 'C ( ) = #', SMILES validity assumed as a z3 precondition): per path z3 proves binding atom and bond order equal an independent OpenSMILES reference binder (cross-checked against RDKit with dummy atoms), plus descriptor-level (symbol, id digits, weights, list totals) and structure-level templates (terminals, tokens, weights, family and parameter order).",
+     "Bounds: K, ring closures and bracket / two-letter atoms only through concrete templates. Trusted: RDKit as the meaning of SMILES, numeral-atom contract."),
+    ("C04", "Shared gen-driver: real Molecule.generate with symbolic weights, symbolic drawn targets and all rng.choice outcomes on 15 skeletons (N = 2 units per block quick, 3 thorough); every attach_other call is checked for range, openness, conjugation rule (harness formula), bonded atoms and bond order, list bookkeeping; final inter-residue bonds = recorded attachments.",
+     "Bounds: skeleton list, N units per block, weights in {0} u [1e-6,1e6]. Stubs: draw_mw (nondeterministic real), embed/UFF (zero conformer), numpy shim, Generator.choice contract. Chemistry assertions are concrete per path; the solver decides which paths exist."),
+    ("C05", "Same runs as C04: per finished path residues partition the atoms, are atom-by-atom identical to the token text parsed independently (RDKit with dummy atoms), form a tree with residues-1 bonds, sanitise, carry the written hydrogen counts, and masses add up.", "As C04."),
+    ("C06", "Same runs as C04 on the closed skeletons: no path ends in an exception, unwinding bound holds, result fully generated, each descriptor bonded exactly once, element order, once-only tokens, >= 1 repeat unit per block, exactly one bond between consecutive elements, end groups are leaves.", "As C04; well-posedness is by construction of the skeleton list."),
+    ("C07", "Same runs as C04 with the drawn target a solver variable: z3 proves per block added_{n-1} <= t < added_n at the exact boundary (so > vs >= is decided), at least one unit, one draw per block, the compared mass is the mass this block added (token texts), unwinding assertion n <= N.", "As C04."),
+    ("C08", "Same runs as C04: at every rng.choice call the candidate set equals the rule-admitted descriptors for that call site and the probability vector is proved equal to the reference law (w/sum w, uniform for equal weights incl. all zero, t_j/sum t for listed transitions over all descriptors) as polynomial identities; sums to 1; no NaN; left terminal's weight/list transferred to the prefix's descriptor.", "As C04; long-run frequencies are outside."),
+    ("C12", "Real Mixture constructor / setters / _estimate_system_molecular_weight on all kind assignments of k <= 3 (4) components with symbolic numbers parsed from symbolic text: soundness (relations exact, totals within 10x the code's tolerance, written values kept, unique solution of the linear specification), completeness for the documented determined forms, print/parse keeps masses.", "Bounds: k, value ranges, tolerance band excluded. Component objects are stand-ins for the estimate function; System text round trip on concrete chemistry."),
+    ("C13", "Real System.generator / System.generate with symbolic system mass, percentages, per-molecule masses and completeness flags (component generate stubbed), all picks: provenance, completeness, stop exactly at the system mass, refusal of non-generable systems, generability checked before generating.", "Bounds: <= 3 (4) yields, <= 2 (3) components; Molecule.generate stubbed (covered by C04-C08)."),
+    ("C14", "The pick vector handed to rng.choice is captured as terms in the declared fractions; with symbolic mean masses z3 decides the renewal-reward identity p_i m_i sum f = f_i sum p_j m_j per component. The pinned tree violates it (pick probability = mass fraction): listed as known finding, any other law is a VIOLATION.", "Assumes the renewal-reward limit theorem; finite-size effects outside."),
+    ("C16", "Real gen_reaction_graph with symbolic weights on 21 (31) molecules: node set, per-node sums = 1 or absent for prob / term_prob / trans_prob, every edge value equals the reference law of C08 as a polynomial identity, edge sets = admissible partners.", "Bounds: molecule list; weights in {0} u [1e-6,1e6]; all-zero admissible weights at a hand-over outside."),
+]:
+    CHECKS[_pid] = dict(text=_txt, note=_note, ref=f"DESIGN.md §4 {_pid}")
+
 NOT_YET = "check not built yet (work in progress in this round)"
 NOT_APPLICABLE = {
     "C11": "normalisation, moments and sampler laws of the six distributions are statements of real analysis over exp/log/Gamma and of scipy's "
